@@ -311,7 +311,7 @@ func assignedNonNilBefore(inf *types.Info, par map[ast.Node]ast.Node, stmt ast.N
 						return true
 					}
 					if call, ok := r.(*ast.CallExpr); ok {
-						if f := core.Callee(inf, call); f != nil && strings.HasSuffix(f.Name(), "Pointer") || f != nil && strings.HasSuffix(f.Name(), "Pointerf") {
+						if f := core.Callee(inf, call); f != nil && strings.HasSuffix(core.NameOf(f), "Pointer") || f != nil && strings.HasSuffix(core.NameOf(f), "Pointerf") {
 							return true
 						}
 					}
@@ -897,7 +897,7 @@ func runR086(c *core.Ctx) {
 				t := inf.Types[e].Type
 				if pt, ok := t.(*types.Pointer); ok {
 					if nn := namedOf(pt.Elem()); nn != nil {
-						switch nn.Obj().Name() {
+						switch core.NameOf(nn.Obj()) {
 						case "UnexpectedStatusCodeError":
 							kind = "unexpected"
 						case "Error":
